@@ -30,6 +30,54 @@ claim(
     "DESIGN.md §4 C27",
 )
 
+TB = "Trusted: Lean kernel (+propext, Classical.choice, Quot.sound only, audited per theorem each run), Py/Basic.lean transcription of CPython primitives, the hand-written model tied by the correspondence harness (differential testing bounded by generator quality); NumPy kernels, dask scheduler/tokenize, floats and threads are assumptions. "
+
+claim("C01",
+  "Lean 4 refinement theorem for an n-D expression mini-language (13 constructors) + behavioural correspondence (model den/chunks vs real compute/.chunks) + program fuzz vs NumPy (optimize on/off, re-chunked variants)",
+  "C01_blockDen_correct: for every well-formed expression (src, map, zip, slice with any step sign, transpose, rechunk, concat, expand_dims, squeeze, broadcast_to, reduce, cumsum, map_blocks) of any depth/rank/shape/chunking, the value each block task computes is the restriction of the NumPy meaning to that block, and the assembled result equals it. Ops outside the mini-language (roll/stack/diff are encoded through it; reshape, take, sliding windows, tile, clip, where...) are covered by the program search only.",
+  TB + "The theorem is about the model; the tie is the ex.* correspondence on generated programs (values and advertised chunks) plus per-block values in C03. Known findings: swv-layout-drift, take-through-broadcast, minmax-zero-size, slice-through-generic-blockwise.",
+  "DESIGN.md §4 C01, §10")
+claim("C03",
+  "Lean 4 theorems (block shape of blockDen = advertised chunks; chunks sum to shape) + correspondence of model blockDen with every executed block of the real graph + search executing every output key of real graphs",
+  "C03_block_shape / C03_chunks_sum for every well-formed expression of the mini-language; every output block of the real materialized graph (optimize on and off, programs biased to layout-changing rewrites, unknown sizes by block count) is executed and its shape/dtype compared with .chunks.",
+  TB + "The chunk bridge of _materialize and ChunksFreeze lowering are exercised by the search, not modelled.",
+  "DESIGN.md §4 C03")
+claim("C12",
+  "Lean 4 proof over a model of normalize_index, the n-D _slice_1d plan of SliceSlicesIntegers, .blocks and take regrouping + behavioural correspondence (exhaustive 1-D n<=5) + end-to-end search vs NumPy",
+  "15 theorems for all ranks/shapes/chunkings: normalize_index preserves NumPy meaning and refuses exactly when NumPy does (basic indices); the per-axis block plan lifted to the n-D grid reads exactly the selected positions in order (axisLift, ssiLayer_eq_cells); advertised chunks/shape; .blocks selection; take regrouping preserves the index list.",
+  TB + "Integer-list/boolean/dask-array/.vindex indexing and the Shuffle gather are decided by correspondence of the helpers plus the end-to-end search only. 12 known findings are listed and probed every run.",
+  "DESIGN.md §4 C12")
+claim("C16",
+  "Lean 4 theorems over a line-by-line model of blockdims_from_blockshape / round_to / auto_chunks (no previous_chunks) / normalize_chunks with the float root as an oracle + correspondence + brute-force validator on the real normalize_chunks",
+  "10 theorems for all shapes/specs/oracle values: per-axis and whole-function well-formedness, uniform layout, round_to, the auto byte limit under the checked oracle relation (_partial: the IEEE root is an oracle), fuel, merge kernel.",
+  TB + "previous_chunks branch is search-only apart from its merge kernel; the literal limit is false there by design (tolerance) and for zero-size previous chunks and beyond 2^48 elements (three known findings). parse_bytes, presentation layer, NaN sizes: search only.",
+  "DESIGN.md §4 C16")
+claim("C17",
+  "Lean 4 proof over a model of common_blockdim, coarse_blockdim and the per-index logic of unify_chunks_expr (float cost comparisons as an oracle) + correspondence in every input order + end-to-end search from clean registries",
+  "8 theorems for all sizes: commonBlockdim sum/refines/splits, coarseBlockdim spec, sizeGuard_limit and C17_limit (every policy, every limit, every oracle value), refine only splits, common layout per index.",
+  TB + "Unknown (nan) sizes not modelled; auto-policy cost arithmetic only through the relation its outcome must satisfy (checked each run); values unchanged is C14's theorem, checked end-to-end here.",
+  "DESIGN.md §4 C17")
+claim("C18",
+  "Lean 4 proof over a model of the PartialReduce tree (partition_all groups, depth, n-D layer wiring, _accept_slice_impl bookkeeping) + correspondence + NumPy-oracle search over all listed reductions",
+  "33 theorems: for every chunking, fan-in k and depth with #blocks <= k^depth the cascade yields one block equal to the flat reduction for any (chunk, combine, aggregate) homomorphism; instances sum/prod/min/max/any/all, mean over Q, argmin/argmax with first-index ties; block counts; layer coverage; slices never reach reduced axes.",
+  TB + "var/moment, topk, nan-variants and all float arithmetic: search only (rtol 1e-7). Depth and split_every root are oracle parameters checked by relation. Five known findings listed and probed.",
+  "DESIGN.md §4 C18")
+claim("C19",
+  "Lean 4 proof over models of the sequential and Blelloch scan wiring, the sliding/moving window block plans, ensure_minimum_chunksize and boundary/trim chunk rules + rename-invariant layer correspondence (exhaustive n<=8, 1..40 blocks) + search vs NumPy/bottleneck definitions",
+  "15 theorems for all inputs: both scans equal the global scan for every block count; the banded window decompositions tile exactly the window under the native guards with indices in range; output chunks; ensure_minimum_chunksize; boundary kinds equal np.pad index maps; overlap/trim chunk round trip.",
+  TB + "Value-level overlap/trim identity (upstream ArrayOverlapLayer), min_count/NaN masking, diff/gradient and floats are correspondence/search only.",
+  "DESIGN.md §4 C19")
+claim("C24",
+  "Lean 4 theorems over a per-axis model of FromArray region logic (_accept_slice, _layer offsets, _compute_sliced_chunks, _accept_rechunk read chunks) + correspondence with the real layers + recording-source search vs NumPy",
+  "10 theorems: for all axis lengths, chunkings, chains of pushed unit-step slices/ints and read chunkings the emitted per-block reads concatenate to exactly NumPy's selection and lie within [0, dim]; storage-aligned read chunks are a valid chunking of the region.",
+  TB + "Per axis; the n-D statement assumes NumPy basic indexing is a per-axis product. The NumPy-source rebase branch is correspondence/search only.",
+  "DESIGN.md §4 C24")
+claim("C25",
+  "Lean 4 theorems over the per-block write index fuse_slice(region, chunk_slice) (model shared with C13) + correspondence with logged __setitem__ keys of real da.store runs + sentinel-target search and npy-stack round trips",
+  "4 theorems: for all target lengths, chunkings and positive-step regions the block write sets are pairwise disjoint, concatenate to sel region, place each element at its position and touch nothing outside; negative regions are refused.",
+  TB + "Per axis with the tuple glue proved (C25_fuseTuple_axiswise); return_stored/load_stored and the npy stack are correspondence/search only.",
+  "DESIGN.md §4 C25")
+
 
 def build():
     props = [json.loads(l) for l in (VERIF / "properties.jsonl").read_text().splitlines() if l.strip()]
